@@ -227,6 +227,10 @@ func (d *driver) evalWAL(dir string, wc *walCase) {
 		}
 		b, mx, err := sqliteApply(dir, wc.Base, wc.WAL[:walHdrSize+s*fsz])
 		if err != nil {
+			if dd := os.Getenv("C05_DUMPDIR"); dd != "" {
+				os.WriteFile(filepath.Join(dd, fmt.Sprintf("%s-base.db", wc.ID)), wc.Base, 0644)
+				os.WriteFile(filepath.Join(dd, fmt.Sprintf("%s-base.db-wal", wc.ID)), wc.WAL, 0644)
+			}
 			return nil, err
 		}
 		if mx != s {
@@ -446,6 +450,7 @@ func run(c *vf.Ctx) {
 		kind string
 		no   int
 	}
+	only := os.Getenv("C05_ONLY") // development aid: "s12" / "y7" runs a single WAL
 	jobs := make(chan job, 64)
 	var wg sync.WaitGroup
 	workers := runtime.NumCPU() - 4
@@ -468,6 +473,9 @@ func run(c *vf.Ctx) {
 					t0 := time.Now()
 					r := c.Rand(uint64(1_000_000 + j.no))
 					sc := genSQLCase(r, j.no)
+					if only != "" {
+						c.Logf("case %+v pre=%+v", *sc, sc.Pre)
+					}
 					pdir := filepath.Join(dir, "p")
 					os.RemoveAll(pdir)
 					os.MkdirAll(pdir, 0755)
@@ -496,10 +504,14 @@ func run(c *vf.Ctx) {
 		}(w)
 	}
 	for i := 0; i < nSQL; i++ {
-		jobs <- job{"sqlite", i}
+		if only == "" || only == fmt.Sprintf("s%d", i) {
+			jobs <- job{"sqlite", i}
+		}
 	}
 	for i := 0; i < nSyn; i++ {
-		jobs <- job{"synthetic", i}
+		if only == "" || only == fmt.Sprintf("y%d", i) {
+			jobs <- job{"synthetic", i}
+		}
 	}
 	close(jobs)
 	wg.Wait()
